@@ -230,7 +230,8 @@ def make_pipefunc(fd: dict, tag: str = ""):
         reskw["post_execution_hook"] = hook
     pf = PipeFunc(fn, orig_outs[0] if len(outs) == 1 else tuple(orig_outs), renames=renames or None, **reskw,
                   defaults=defaults or None, bound=bound or None, mapspec=fd.get("mapspec"),
-                  internal_shape=tuple(ishape) if ishape else None, cache=bool(fd.get("cache", False)))
+                  internal_shape=(ishape[0] if fd.get("intshape") and len(ishape) == 1 else tuple(ishape)) if ishape else None,
+                  cache=bool(fd.get("cache", False)))           # `intshape`: a rank-1 internal shape given as a plain int
     pf._pfverif_id = fid  # noqa: SLF001
     return pf
 
